@@ -683,6 +683,11 @@ class SymNum(SymBase):
     def __rmul__(self, o):
         p = _pair(o, self)
         if p is None:
+            if isinstance(o, (tuple, list)) and len(o) == 1 and isinstance(self, SymInt):
+                # (v,) * n : a sequence of symbolic length n (0 when n <= 0) of one repeated value
+                from .seq import SymSeq
+
+                return SymSeq.repeat(o[0], self, "tuple" if isinstance(o, tuple) else "list")
             return NotImplemented
         return wrap(p[0] * p[1])
 
